@@ -208,6 +208,59 @@ func runC14(c *Ctx) {
 		}
 	})
 
+	// interrupt acceptance: bit 7 of R and I may not change, and the low seven
+	// bits advance by a small number of fetches (silicon: 1; this project: 0 for
+	// NMI/mode 1/mode 2, 1 for the instruction executed in mode 0) — 0..2 accepted
+	var accN int64
+	{
+		r := mon.NewRng(uint64(c.Seed) ^ 0xC14C)
+		mem := &mon.Mem{}
+		mem.Fill(r.U64())
+		for r0 := 0; r0 < 256; r0++ {
+			for kind := 0; kind < 5; kind++ {
+				for rep := 0; rep < 8; rep++ {
+					pre := RandStates(r)
+					pre.IR.Lo = uint8(r0)
+					pre.IFF1 = true
+					var it *z80.Interrupt
+					switch kind {
+					case 0:
+						it = z80.NMIInterrupt()
+					case 1:
+						pre.IM = 1
+						it = z80.IM1Interrupt()
+					case 2:
+						pre.IM = 2
+						it = z80.IM2Interrupt(r.U8())
+					case 3:
+						pre.IM = 0
+						it = z80.IM0Interrupt(uint8(0xc7 | r.Intn(8)<<3))
+					case 4:
+						pre.IM = 0
+						t := r.U16()
+						it = z80.IM0Interrupt(0xcd, uint8(t), uint8(t>>8))
+					}
+					mem.Reset()
+					cpu := z80.CPU{States: pre, Memory: mem, Interrupt: it}
+					cpu.Step()
+					accN++
+					d := (cpu.IR.Lo - pre.IR.Lo) & 0x7f
+					if cpu.Interrupt != nil {
+						continue // not accepted: not this part's business
+					}
+					if cpu.IR.Lo&0x80 != pre.IR.Lo&0x80 || cpu.IR.Hi != pre.IR.Hi || d > 2 {
+						c.R.Violation(fmt.Sprintf("C14/acceptance/kind%d", kind), map[string]interface{}{
+							"what": "interrupt acceptance changed bit 7 of R or I, or moved the refresh counter by more than two fetches",
+							"pre": DumpState(&pre, false), "post": DumpState(&cpu.States, cpu.HALT), "request_data": HexBytes(it.Data), "nmi": kind == 0})
+					}
+					distinct.Add(mon.Hash(0xacc, uint64(r0), uint64(kind), uint64(rep)))
+				}
+			}
+		}
+	}
+	c.R.Set("acceptance_steps", accN)
+	evals += accN
+
 	c.R.Set("evaluations", evals+multi)
 	c.R.Set("single_steps", evals)
 	c.R.Set("distinct_nontrivial", distinct.N())
@@ -218,6 +271,6 @@ func runC14(c *Ctx) {
 	c.R.Set("encodings_covered", int64(len(encs)))
 	c.R.Set("exhaustive", false)
 	c.R.Set("exhaustive_over", "(encoding, starting R) pairs: 930 x 256, each with 5 I values x 2 IFF2 values; other registers sampled")
-	c.R.Set("rule", "all 930 implemented encodings x all 256 starting R x I in {00,7F,80,FF,random} x IFF2 in {0,1}: delta of R's low 7 bits = opcode fetches of the decode table (1 unprefixed, 2 prefixed, 2 or 3 DDCB/FDCB), bit 7 and I unchanged except by LD R,A / LD I,A, LD A,R / LD A,I value and flags by direct formula, plus equality with the reference model's R; then multi-Step programs (LDIR/LDDR/CPIR/OTIR/INIR with 1..300 repetitions, 1..300 Steps on HALT) from random R. Every case changes R, so every case is non-trivial; distinct = distinct (encoding, R, I, IFF2) tuples + distinct (kind, length, R) programs")
-	c.R.Assume("R across interrupt acceptance is not compared (chips differ; not part of the property)")
+	c.R.Set("rule", "all 930 implemented encodings x all 256 starting R x I in {00,7F,80,FF,random} x IFF2 in {0,1}: delta of R's low 7 bits = opcode fetches of the decode table (1 unprefixed, 2 prefixed, 2 or 3 DDCB/FDCB), bit 7 and I unchanged except by LD R,A / LD I,A, LD A,R / LD A,I value and flags by direct formula, plus equality with the reference model's R; then interrupt acceptance (NMI, mode 0 RST/CALL, mode 1, mode 2; all 256 starting R x 8 states each): bit 7 of R and I unchanged, counter moved by 0..2; then multi-Step programs (LDIR/LDDR/CPIR/OTIR/INIR with 1..300 repetitions, 1..300 Steps on HALT) from random R. Every case changes R, so every case is non-trivial; distinct = distinct (encoding, R, I, IFF2) tuples + distinct (kind, length, R) programs")
+	c.R.Assume("across interrupt acceptance only bit 7 of R, I and a bound of 0..2 fetches are checked (chips and emulators differ on the exact count)")
 }
